@@ -1,5 +1,8 @@
 SPECIFICATION Spec
 CONSTANTS MaxLen = 3
   Sizes = {80, 10064}
+  Pkts <- LinkPkts
+  Filters <- LinkFilters
+  CutAll = TRUE
 INVARIANTS ChainExact PrefixKept Emit
 CHECK_DEADLOCK FALSE
